@@ -114,7 +114,7 @@ def gen_parse(o, probe=False):
                 """,
                 parse_fns(ty, allowed, N),
                 f"all 128^n ASCII byte strings of every length n in {lo}..={hi} (symbolic length, symbolic bytes)",
-                unwind=unwind_for(allowed, lo, hi), thorough=(isf and "f64" in ty and lo > 0))
+                unwind=unwind_for(allowed, lo, hi), thorough=(lo > 0 and ("f64" in ty or ("u32" in ty and hi > 17 - (ncomp(allowed) == 3) * 4))))
         # ---- family 2: every string of at most K Unicode scalar values ----------------------------------------------
         K = 9
         decl = "\n".join(f"let c{i}: char = kani::any();" for i in range(K))
@@ -150,7 +150,7 @@ def gen_parse(o, probe=False):
                 unwind=unwind_for(allowed, 0, cap or NB), thorough=thorough)
 
         if wide:
-            unicode(f"c12_parse_unicode_{key}_le{K}_b9", 9, 9, False)
+            unicode(f"c12_parse_unicode_{key}_le{K}_b9", 9, 9, "f64" in ty)
         unicode(f"c12_parse_unicode_{key}_le{K}", 4 * K, None, wide)
         # ---- family 3 (float targets): value of every well-formed string, one harness per form ---------------------
         if isf:
@@ -178,7 +178,35 @@ def gen_parse(o, probe=False):
                     """,
                     parse_fns(ty, [n], N) + [f"palette::rgb::Rgb::into_format ({src} -> {'f32' if 'f32' in ty else 'f64'})"],
                     f"all 22^{n} digit strings x optional '#'",
-                    unwind=per + 1)
+                    unwind=per + 1, thorough=True)
+
+
+def gen_from_hex(o):
+    for key, ty in (("rgb_u8", "Rgb<Std, u8>"), ("rgba_u8", "Rgba<Std, u8>")):
+        tys = ty.replace("Std", "S")
+        o.harness(
+            f"c12_from_hex_{key}_is_parse",
+            f"{tys}::from_hex(s) and s.parse() agree on EVERY ASCII string of at most 9 bytes: both Err, or both Ok with the same colour "
+            f"(so everything decided about `parse` holds for the `from_hex` constructor)",
+            f"""
+            let buf: [u8; 9] = kani::any();
+            let len: usize = kani::any();
+            kani::assume(len <= 9);
+            kani::assume(ascii_9(&buf));
+            kani::cover!(true);
+            // SAFETY: ASCII bytes
+            let s = unsafe {{ core::str::from_utf8_unchecked(&buf[..len]) }};
+            let a = <{ty}>::from_hex(s);
+            let b = s.parse::<{ty}>();
+            kani::cover!(a.is_ok());
+            match (a, b) {{
+                (Ok(x), Ok(y)) => assert!(x == y),
+                (Err(_), Err(_)) => {{}}
+                _ => assert!(false, "from_hex and parse disagree"),
+            }}
+            """,
+            [f"palette::rgb::{tys}::from_hex", f"impl FromStr for palette::rgb::{tys}"],
+            "all 128^n ASCII byte strings of every length n <= 9", unwind=3)
 
 
 # ------------------------------------------------------------------------------------------------------------------
@@ -236,7 +264,7 @@ def gen_format(o):
                 + ([f"impl fmt::{'UpperHex' if upper == 'true' else 'LowerHex'} for palette::Alpha<C, T>"] if nc == 4 else [])
                 + [f"impl FromStr for palette::rgb::{tys}", f"palette::rgb::hex::{HEXFNS[n]}"],
                 f"all 2^{8 * nc * per // 2} colours",
-                unwind=per + 3, thorough=True)
+                unwind=per + 3, thorough=(ct != "u8"))
 
 
 # ------------------------------------------------------------------------------------------------------------------
@@ -524,17 +552,25 @@ fn words_24(buf: &[u8; 24], len: usize) -> [u64; 3] {{
         f"all strings of k <= {K} Unicode scalar values (every `char` at every position)", unwind=NB + 2)
     o.harness(
         "c12_named_entries_count",
-        f"the generated map has exactly {len(names)} entries (entries(), names() and colors() all yield {len(names)} items). With "
+        f"the generated map has exactly {len(names)} entries (named::entries() yields {len(names)} items). With "
         f"c12_named_from_str_ascii_le{longest} (each of the {len(names)} distinct listed names is found, i.e. occupies an entry) this leaves no entry for any "
         f"other key, so no string of any length other than a listed name can be found (phf::Map::get only returns an entry whose stored key equals the argument)",
         f"""
         kani::cover!(true);
         assert!(named::entries().count() == {len(names)});
+        """,
+        ["palette::named::entries", "palette::named::COLORS"],
+        f"the {len(names)} entries of the generated map", unwind=len(names) + 2)
+    o.harness(
+        "c12_named_names_colors_count",
+        f"named::names() and named::colors() yield {len(names)} items each, like entries()",
+        f"""
+        kani::cover!(true);
         assert!(named::names().count() == {len(names)});
         assert!(named::colors().count() == {len(names)});
         """,
-        ["palette::named::entries", "palette::named::names", "palette::named::colors", "palette::named::COLORS"],
-        f"the {len(names)} entries of the generated map", unwind=len(names) + 2)
+        ["palette::named::names", "palette::named::colors", "palette::named::COLORS"],
+        f"the {len(names)} entries of the generated map", unwind=len(names) + 2, thorough=True)
     G = 8
     groups = [names[i:i + G] for i in range(0, len(names), G)]
     for gi, grp in enumerate(groups):
@@ -558,6 +594,7 @@ def gen():
             "use palette::named;\nuse palette::rgb::channels::{Abgr, Argb, Bgra, Rgba as RgbaOrder};\nuse palette::rgb::{Rgb, Rgba};\nuse palette::Srgb;\n"
             "use crate::c12_support::*;\n")
     gen_parse(o)
+    gen_from_hex(o)
     gen_format(o)
     gen_pack(o)
     gen_named(o)
